@@ -37,7 +37,8 @@ def _parse(files):
         if len(steps) < 2:
             continue
         cfg = steps[0][1]["cfg"]
-        cfg = {"A": dict(cfg["A"]), "B": dict(cfg["B"]), "ws": [dict(w) for w in cfg["ws"]], "d1": cfg["d1"], "d2": cfg["d2"]}
+        cfg = {"A": dict(cfg["A"]), "B": dict(cfg["B"]), "ws": [dict(w) for w in cfg["ws"]], "d1": cfg["d1"], "d2": cfg["d2"],
+               "decl": cfg["decl"]}
         events, expected = [], []
         for _, st in steps[1:]:
             events.append(tuple(st["ev"]))
@@ -90,7 +91,7 @@ def run(ctx):
                 cfg = mm["cfg"]
                 key = {"ws": [(w["k"], w["dom"], w.get("c", w.get("to"))) for w in cfg["ws"]],
                        "A": (cfg["A"]["edge"], cfg["A"]["rst"]), "B": (cfg["B"]["edge"], cfg["B"]["rst"]),
-                       "d1": cfg["d1"], "d2": cfg["d2"], "error": mm.get("error", "").split(":")[0]}
+                       "d1": cfg["d1"], "d2": cfg["d2"], "decl": cfg.get("decl"), "error": mm.get("error", "").split(":")[0]}
                 ctx.violation(key, "design %s: after event #%d %s state (r1, r2, r3, r4, mw, mr, mt) = %s, AmDesign says %s%s" % (
                     cfg, mm["step"], mm.get("event"), mm.get("actual"), mm.get("expected"), (" " + mm["error"]) if "error" in mm else ""),
                     replay=mm)
